@@ -1783,7 +1783,7 @@ static void fam_qr(int what)
 			if (W_OF_O(no) != n) continue;
 			wwTo(modo, no, mod.v);
 			if (zmCreate_keep(no) > sizeof(QRMEM[0]) || zmCreate_deep(no) > sizeof(STACK)) continue;
-			for (k = 0; k < 5; ++k) rr[k] = (qr_o*)QRMEM[k], have[k] = 0;
+			for (k = 0; k < 5; ++k) rr[k] = (qr_o*)QRMEM[k], have[k] = 0, memset(QRMEM[k], 0xA5, zmCreate_keep(no));	/* dirty memory */
 			zmCreatePlain(rr[0], modo, no, STACK); have[0] = 1;
 			if (mod_is_crand(mc) && n >= 2 && no == n * O_PER_W) zmCreateCrand(rr[1], modo, no, STACK), have[1] = 1;
 			zmCreateBarr(rr[2], modo, no, STACK); have[2] = 1;
@@ -1841,6 +1841,7 @@ static void fam_gf2(void)
 		if (p[2] == 0 && !(m % 8 != 0 && p[1] > 0 && m - p[1] >= B_PER_W)) continue;
 		if (p[2] != 0 && !(m - p[1] >= B_PER_W && p[1] < B_PER_W)) continue;
 		if (gf2Create_keep(m) > sizeof(QRMEM[0]) || gf2Create_deep(m) > sizeof(STACK)) continue;
+		memset(f, 0xA5, gf2Create_keep(m));		/* the description is built in memory that held other data */
 		if (!gf2Create(f, p, STACK)) continue;
 		n = f->n; no = f->no;
 		memset(mod.v, 0, sizeof(mod.v)); mod.n = W_OF_B(m + 1); wwSetBit(mod.v, m, 1); wwSetBit(mod.v, p[1], 1); mod.v[0] |= 1;
